@@ -18,6 +18,7 @@ func init() {
 		Thorough:   all("./..."),
 		Run: func(c *Ctx) {
 			c.ruleWKTCheckRanges("R-WKT-CHECK-RANGES")
+			c.ruleAddOverflowSigns("R-ADD-OVERFLOW-SIGNS")
 		},
 	})
 }
